@@ -671,6 +671,12 @@ async fn run_feed_oversize(addr: String, certs: Certs, id: u64, comp: Option<&'s
     }
 }
 
+/// one bytes-codec configuration, for other stages (C14's L3) that want the batch/compress/unbatch composition checked
+/// end to end through the real publisher and subscriber
+pub async fn run_bytes_cfg(addr: String, certs: Certs, cfg: Cfg, seed: u64) -> Outcome {
+    run_cfg::<BytesCodec, BytesCodec, Vec<u8>>(addr, certs, cfg, BytesCodec, BytesCodec, seed).await
+}
+
 /// Several library subscribers open on a topic nobody has used yet at the same moment (separate clients, released by
 /// a barrier); a publisher then sends a few items and finishes. Every subscriber whose open() succeeded "registered
 /// before the first send" and must yield exactly the items.
@@ -965,6 +971,17 @@ pub fn run(rep: &mut StageReport, tier: &str, seed: u64) {
             let r = match tokio::time::timeout(Duration::from_secs(90), run_feed_oversize(addr.clone(), certs.clone(), 91_000 + i as u64, comp, before, after)).await {
                 Ok(o) => o,
                 Err(_) => Outcome::Inconclusive("watchdog: feed/oversize scenario did not finish within 90 s".into()),
+            };
+            out.push((cfg, r));
+        }
+        {
+            // a subscriber that silently re-registered after a connection loss, then idles: the items accepted next
+            let cfg = Cfg { codec: "string", compression: None, batch: None, count: 2, payload: 2, sizes: None, compressible: false, id: 93_000 };
+            let r = match tokio::time::timeout(Duration::from_secs(120), super::c12::idle_after_recovery(&certs, 2)).await {
+                Ok(Ok(n)) => Outcome::Held { delivered: n as usize },
+                Ok(Err((sig, d))) if sig == "INCONCLUSIVE" => Outcome::Inconclusive(d),
+                Ok(Err((sig, d))) => Outcome::Violated { sig: format!("lost/{}", sig.replace("subscriber/", "")), detail: d },
+                Err(_) => Outcome::Inconclusive("watchdog: idle-after-recovery scenario did not finish within 120 s".into()),
             };
             out.push((cfg, r));
         }
